@@ -10,6 +10,7 @@ St(i) == TraceLog[tid].steps[i]
 Op == St(l).op
 ByOp ==
   CASE Op[1] = "CustPrim"      -> CustPrim(Op[2], Op[3])
+    [] Op[1] = "CustProt"      -> CustProt(Op[2], Op[3])
     [] Op[1] = "Customize"     -> Customize(Op[2], Op[3])
     [] Op[1] = "ChildAttrs"    -> ChildAttrs(Op[2], Op[3], Op[4])
     [] Op[1] = "ChildAttrsAll" -> ChildAttrsAll(Op[2], Op[3])
